@@ -92,6 +92,10 @@ def setter_value(rng, schema, field, u, have_rate_and_count=True):
         return GS.rgrid(rng), False
     if field == "waveform":
         n = rng.choice([0, 1, 7, 64, 200, 1024])
+        if rng.random() < 0.12:
+            # sizes of real tracks: tens of thousands of entries, and those whose stored payload is an exact multiple of
+            # the 16 KiB chunk the container is written in (30 + 6n bytes on 1.x: n = 8187, 16379, 24571)
+            n = rng.choice([8187, 16379, 24571, 8186, 8188, 5461, 30000])
         return (GS.rwaveform(rng, n) if n else ""), False
     raise ValueError(field)
 
